@@ -6,7 +6,10 @@
                            path := decl|assign|compound|arg|global-scalar|static|incdec-var|incdec-elem1|return|return-from-elemN|elem1|
                                    elem1-compound|elemN|lit1|litN|global-arr|assign-from-elemN|assign-call|decl-call|decl-typedef|
                                    decl-typedef-ternary|const-global|static-assign|elem1-global|arrlit-assign1|arrlit-assignN|arr-copy|
-                                   member|member-generic|member-nested|deref|reference|
+                                   member|member-generic (direct member stores, checked since fix a3f0b3d)|
+                                   member-literal (struct literal: clamp only)|member-literal-arr (array member inside a struct literal)|
+                                   member-arrlit-assign (s.a = [..])|
+                                   member-nested|member-pointer|member-reference|member-struct-array|deref|reference (nothing)|
                                    assign-hint:H|decl-multi:H      H := none|ptr|tiny|short|int|long|char|bool (the type hint handed to
                                    VariableManager::assign_variable)
                            type := tiny|short|int|long|char|bool|utiny|ushort|uint|ulong|uchar
@@ -52,7 +55,11 @@ let rec path_of = function
   | "assign-call" -> PAssignCall | "decl-call" -> PDeclCall | "decl-typedef" -> PDeclTypedef
   | "decl-typedef-ternary" -> PDeclTypedefTernary | "const-global" -> PConstGlobal | "static-assign" -> PStaticAssign
   | "elem1-global" -> PElem1Global | "arrlit-assign1" -> PArrLitAssign1 | "arrlit-assignN" -> PArrLitAssignN | "arr-copy" -> PArrCopy
-  | "member" | "member-generic" -> PMember | "member-nested" | "deref" | "reference" -> PIndirect
+  | "member" | "member-generic" -> PMember | "member-literal" -> PMemberLit
+  | "member-nested" | "member-pointer" | "member-reference" | "member-struct-array" | "deref" | "reference" -> PIndirect
+  (* an array member initialised inside a struct literal behaves like `a = [..]` on a 1-D array (clamp, narrowing read); a whole
+     array literal assigned to a member array like the nested form (clamp only, the member read does not narrow) *)
+  | "member-literal-arr" -> PArrLitAssign1 | "member-arrlit-assign" -> PArrLitAssignN
   | "decl" -> PDecl | "assign" -> PAssign | "compound" -> PCompound | "arg" -> PArg | "global-scalar" -> PGlobalScalar
   | "static" -> PStatic | "incdec-var" -> PIncDecVar | "incdec-elem1" -> PIncDecElem1 | "return" -> PReturn
   | "return-from-elemN" -> PReturnElemN
